@@ -4,7 +4,7 @@ import ast
 from ..core.model import AnchorError, FuncInfo
 from ..core.cfg import walk_shallow, cfg_of
 from ..core.facts import U
-from ..engine import argn, fn_name, kwarg, local_defs, returns_of, const_str
+from ..engine import argn, fn_name, kwarg, local_defs, returns_of, const_str, vars_assigned_from
 
 EXPLANATION = (
     "Decides structural clauses of C18: S1 writer/reader agreement of the line format - the literal text the reporter's "
@@ -274,12 +274,14 @@ def s4(ctx, rep):
     f = c.methods["__call__"]
     cfg = cfg_of(f)
     kw = f.node.args.kwarg.arg
-    reads = {n.id for n in cfg.nodes if n.kind == "stmt" and isinstance(n.ast, ast.Assign) and U(n.ast.value) == "self.iter"
+    # the counter is read into the report (directly, or through a local loaded from it) and then advanced by one
+    held = set(vars_assigned_from(f, lambda v: U(v) == "self.iter")) | {"self.iter"}
+    reads = {n.id for n in cfg.nodes if n.kind == "stmt" and isinstance(n.ast, ast.Assign) and U(n.ast.value) in held
              and isinstance(n.ast.targets[0], ast.Subscript) and U(n.ast.targets[0].value) == kw}
     incs = {n.id for n in cfg.nodes if n.kind == "stmt" and isinstance(n.ast, ast.AugAssign) and U(n.ast.target) == "self.iter"
             and isinstance(n.ast.op, ast.Add) and isinstance(n.ast.value, ast.Constant) and n.ast.value.value == 1}
     incs |= {n.id for n in cfg.nodes if n.kind == "stmt" and isinstance(n.ast, ast.Assign) and U(n.ast.targets[0]) == "self.iter"
-             and U(n.ast.value).replace(" ", "") in ("self.iter+1", "1+self.iter")}
+             and U(n.ast.value).replace(" ", "") in {f"{h_}+1" for h_ in held} | {f"1+{h_}" for h_ in held}}
     other = {n.id for n in cfg.nodes if n.kind == "stmt" and isinstance(n.ast, (ast.Assign, ast.AugAssign)) and
              any(U(t) == "self.iter" for t in (n.ast.targets if isinstance(n.ast, ast.Assign) else [n.ast.target]))} - incs
     rl = ctx.nodes(f, ctx.sel_call(func=P.func("syne_tune.report._report_logger")), "may", 0)
